@@ -860,6 +860,7 @@ impl Adf {
                 if stack.is_empty() {
                     break;
                 }
+                let mut choice_found = false;
                 while let Some((choice, ng)) = stack.pop() {
                     log::trace!("adding ng: {:?}", ng);
                     ng_store.add_ng(ng);
@@ -870,8 +871,13 @@ impl Adf {
                             "choice found, reverting interpretation to {:?}",
                             cur_interpr
                         );
+                        choice_found = true;
                         break;
                     }
+                }
+                if !choice_found {
+                    // every choice point is exhausted
+                    break;
                 }
             }
             match ng_store.conclusion_closure(&cur_interpr) {
